@@ -6,7 +6,7 @@ From PP Require Import Doc Dispatch DispatchProofs.
 
 Section SI.
 Variable mro : cls -> list cls.
-Variable accepts : pd -> cls -> bool.
+Variable accepts : pd -> nat -> bool.
 Hypothesis Hmro : forall c, exists tl, mro c = c :: tl.
 
 Definition is_reg_op (o : dop) : bool :=
@@ -20,27 +20,27 @@ Proof.
   destruct o; cbn [is_reg_op fold_left]; apply IH.
 Qed.
 
-Lemma srun_last : forall h s c,
-  last (srun mro accepts s (h ++ [Print c])) OUnit = OChosen (schosen mro accepts (sfold s h) c).
+Lemma srun_last : forall h s c i,
+  last (srun mro accepts s (h ++ [Print c i])) OUnit = OChosen (schosen mro accepts (sfold s h) c i).
 Proof.
-  induction h as [|o tl IH]; intros s c; [reflexivity|].
-  cbn [app srun]. unfold sfold. cbn [fold_left]. specialize (IH (sstep s o) c).
-  destruct (srun mro accepts (sstep s o) (tl ++ [Print c])) eqn:E.
+  induction h as [|o tl IH]; intros s c i; [reflexivity|].
+  cbn [app srun]. unfold sfold. cbn [fold_left]. specialize (IH (sstep s o) c i).
+  destruct (srun mro accepts (sstep s o) (tl ++ [Print c i])) eqn:E.
   - destruct tl; discriminate.
   - exact IH.
 Qed.
 
-Lemma cd_app h c : forallb cd_query h = true -> forallb cd_query (h ++ [Print c]) = true.
+Lemma cd_app h c i : forallb cd_query h = true -> forallb cd_query (h ++ [Print c i]) = true.
 Proof. intros H. rewrite forallb_app, H. reflexivity. Qed.
 
-Theorem prints_leave_no_trace h1 h2 c :
+Theorem prints_leave_no_trace h1 h2 c i :
   forallb cd_query h1 = true -> forallb cd_query h2 = true ->
   filter is_reg_op h1 = filter is_reg_op h2 ->
-  last (drun mro accepts dinit (h1 ++ [Print c])) OUnit = last (drun mro accepts dinit (h2 ++ [Print c])) OUnit.
+  last (drun mro accepts dinit (h1 ++ [Print c i])) OUnit = last (drun mro accepts dinit (h2 ++ [Print c i])) OUnit.
 Proof.
   intros Q1 Q2 E.
-  rewrite (refines mro accepts Hmro (h1 ++ [Print c]) dinit sinit Inv_init (cd_app h1 c Q1)).
-  rewrite (refines mro accepts Hmro (h2 ++ [Print c]) dinit sinit Inv_init (cd_app h2 c Q2)).
+  rewrite (refines mro accepts Hmro (h1 ++ [Print c i]) dinit sinit Inv_init (cd_app h1 c i Q1)).
+  rewrite (refines mro accepts Hmro (h2 ++ [Print c i]) dinit sinit Inv_init (cd_app h2 c i Q2)).
   rewrite !srun_last. now rewrite (sfold_filter h1), (sfold_filter h2), E.
 Qed.
 
